@@ -57,7 +57,7 @@ func fnCall(f string, a ...*sx.Node) *sx.Node {
 func binOp(op string, l, r *sx.Node) *sx.Node { return sx.Tag("bin", sx.Str(op), l, r) }
 
 var numLits = []float64{0, 1, 2, 3, 4, 5, 7, 10, 12, 100, 0.5, 0.25, 1.5, 2.75, 3.125, 1000000, 6.75}
-var strLits = []string{"a", "b", "hello", "x y", "", "Start", "N1", "N2", "ünï", "日本"}
+var strLits = []string{"a", "b", "hello", "x y", "", "Start", "N1", "N2", "ünï", "日本", "{0}", "{1}", "{2}", "%d"}
 
 func (g *dgen) pick(l []string) string { return l[g.r.Intn(len(l))] }
 
@@ -219,7 +219,8 @@ func (g *dgen) lit(f float64) *sx.Node {
 	return numLit(f)
 }
 
-var words = []string{"hello", "there", "well", "a", "long", "day", "Ünï", "日本語", "ok", "yes", "no", "x2", "it's", "so - so", "wait...", "50%", "a>b", "tab\there"}
+var words = []string{"hello", "there", "well", "a", "long", "day", "Ünï", "日本語", "ok", "yes", "no", "x2", "it's", "so - so", "wait...", "50%", "a>b", "tab\there",
+	"{0}", "{1}", "{2} {0}", "%s", "{}"}
 
 func (g *dgen) textChunk(first bool) string {
 	n := 1 + g.r.Intn(3)
